@@ -299,7 +299,7 @@ func vfErrClass(err error) string {
 func vfC01Hooked(t *testing.T, res *vfResult, idx int) {
 	kinds := []string{"server-srtp-other-common-profile", "server-srtp-unoffered-profile", "server-alpn-other-offered", "server-alpn-unoffered",
 		"server-cid-rewritten", "client-srtp-list-reordered", "client-alpn-list-reordered", "server-ems-dropped", "server-suite-other-offered",
-		"server-alpn-named-by-hook-only"}
+		"server-alpn-named-by-hook-only", "server-suite-sibling-other-key-type"}
 	kind := kinds[idx%len(kinds)]
 	resumedRound := (idx/len(kinds))%2 == 1
 	cfg := vfBaseCfg(vfSuiteInfo{Name: "default", Auth: "ecdsa"}, "ecdsa")
@@ -387,6 +387,23 @@ func vfC01Hooked(t *testing.T, res *vfResult, idx int) {
 					other = uint16(TLS_ECDHE_ECDSA_WITH_AES_128_GCM_SHA256)
 				}
 				sh.CipherSuiteID = &other
+
+				return &sh
+			}))
+		case "server-suite-sibling-other-key-type":
+			// the same key exchange, AEAD and PRF hash, only the authentication type differs: keys, Finished and exporter
+			// all agree, so nothing but the reported suite shows the difference
+			so = append(so, WithServerHelloMessageHook(func(sh handshake.MessageServerHello) handshake.Message {
+				sib := map[uint16]uint16{
+					uint16(TLS_ECDHE_ECDSA_WITH_AES_128_GCM_SHA256): uint16(TLS_ECDHE_RSA_WITH_AES_128_GCM_SHA256),
+					uint16(TLS_ECDHE_ECDSA_WITH_AES_256_GCM_SHA384): uint16(TLS_ECDHE_RSA_WITH_AES_256_GCM_SHA384),
+					uint16(TLS_ECDHE_ECDSA_WITH_CHACHA20_POLY1305_SHA256): uint16(TLS_ECDHE_RSA_WITH_CHACHA20_POLY1305_SHA256),
+				}
+				if sh.CipherSuiteID != nil {
+					if o, ok := sib[*sh.CipherSuiteID]; ok {
+						sh.CipherSuiteID = &o
+					}
+				}
 
 				return &sh
 			}))
@@ -502,7 +519,7 @@ func TestVF_C01(t *testing.T) {
 	vfBubbles(t, total, func(t *testing.T, i int) {
 		vfC01Case(t, res, i, suites[i%len(suites)])
 	})
-	vfBubbles(t, 20, func(t *testing.T, i int) { vfC01Hooked(t, res, i) })
+	vfBubbles(t, 22, func(t *testing.T, i int) { vfC01Hooked(t, res, i) })
 	for _, s := range suites {
 		if res.Get("ok/"+s.Name) == 0 {
 			res.Inconc("no successful handshake observed for suite " + s.Name)
